@@ -42,6 +42,10 @@ class Ledger:
         self.obls.append(dict(rule=rule, construct=construct, where=where, status="failed",
                               why=why, path=path, witness=witness, nontrivial=True))
 
+    def undecided(self, rule, construct, where, why):
+        """the rule could neither be discharged nor refuted with the precision available (never an alarm)"""
+        self.obls.append(dict(rule=rule, construct=construct, where=where, status="undecided", why=why, nontrivial=True))
+
     def info(self, text):
         self.infos.append(text)
 
@@ -106,8 +110,9 @@ class Ledger:
                 print(f"      witness: {o['witness']}")
         self._write(project, files, violations=len(viol), status="violation" if viol else "ok")
         n_ok = sum(1 for o in self.obls if o["status"] == "discharged")
+        n_und = sum(1 for o in self.obls if o["status"] == "undecided")
         print(f"[{self.prop}/{self.tier}] obligations={len(self.obls)} discharged={n_ok} "
-              f"known-findings={len(kf)} violations={len(viol)} wall={time.time() - self.t0:.2f}s")
+              f"known-findings={len(kf)} violations={len(viol)}" + (f" undecided={n_und}" if n_und else "") + f" wall={time.time() - self.t0:.2f}s")
         return 1 if viol else 0
 
     def _write(self, project, files, violations, status, errors=None):
@@ -148,6 +153,7 @@ class Ledger:
             "analysed": self.analysed,
             "not_decided": self.not_decided,
             "known_findings_reported": [self.key(o) for o in self.obls if o["status"] == "known-finding"],
+            "undecided": [self.key(o) for o in self.obls if o["status"] == "undecided"],
             "status": status,
         }
         if self.exhaustive is not None:
